@@ -1,5 +1,5 @@
 """Property -> rule families.  Each entry is a list of callables taking the Run context."""
-import rf_alloc, rf_state, rf_tables, rf_sig, rf_union, rf_flow, rf_vocab, rf_mir2c, rf_code
+import rf_alloc, rf_state, rf_tables, rf_sig, rf_union, rf_flow, rf_vocab, rf_mir2c, rf_code, rf_bounds
 from lib import facts as F
 
 
@@ -125,9 +125,26 @@ def c17_rf4(run):
     run.min_instances('RF4', 15)
 
 
+def c12_rf13(run):
+    rf_bounds.rf13(run)
+    run.min_instances('RF13', 4)
+    sh = run.shadow()
+    rf_bounds.rf13(sh, header='rf13_control.c', unit=run.control_tu('rf13_control.c'))
+    got = sorted(f.construct.split(' ')[0] for f in sh.findings)
+    run.control('RF13', 'rf13_control.c', got == ['callback', 'destination', 'index'])
+    rf_bounds.rf13_exits(run)
+    run.min_instances('RF13e', 8)
+
+
+def c11_rf14(run):
+    rf_bounds.rf14(run, BIN_IO[:4])
+    run.min_instances('RF14', 1)
+
+
 PLAN = {
+    'C12': [c12_rf13],
     'C10': [c10_rf6, c10_vocab],
-    'C11': [c11_rf6, c11_vocab],
+    'C11': [c11_rf6, c11_vocab, c11_rf14],
     'C02': [c02_rf8],
     'C20': [c20_rf8, c20_rf6, c20_rf21],
     'C15': [c15_rf17, c15_rf16h],
